@@ -1285,3 +1285,33 @@ Corollary wf_wire_unique (r : role) (bs : bytes) (its its' : list witem) :
 Proof.
   intros H1 H2. apply wf_wire_decode in H1. apply wf_wire_decode in H2. congruence.
 Qed.
+
+(* ------------------------------------------------------------------------------------------ *)
+(** * 8. both instances together, read off the wire *)
+
+Definition item_reply_small (it : witem) : Prop :=
+  it_kind it = KPong \/ it_kind it = KClose -> blen (it_plain it) <= 125.
+
+Lemma items_small (its : list witem) :
+  Forall P_small (map item_frame its) -> Forall item_reply_small its.
+Proof.
+  induction its as [|it its IH]; intros H; [constructor|].
+  cbn [map] in H. inversion H as [|f fs Hf Hfs]; subst. constructor; [|apply IH; exact Hfs].
+  intros Hk. apply Hf. unfold is_reply_op. cbn [item_frame f_hdr h_opcode].
+  destruct Hk as [-> | ->]; [left|right]; reflexivity.
+Qed.
+
+Theorem wire_wellformed_small r part cfg x0 ops w0 rs x w :
+  ctx_new r part cfg = Some x0 -> w_log w0 = [] ->
+  Forall op_no_raw ops -> Forall op_len_u64 ops -> Forall op_ctl_small ops ->
+  run_ops x0 ops w0 = (rs, x, w) ->
+  exists its : list witem,
+    spec_decode r (wire (w_log w) ++ c_out (x_codec x)) = Some its /\
+    Forall item_reply_small its.
+Proof.
+  intros Hn Hl H1 H2 H3 Hr.
+  destruct (wire_wellformed r part cfg x0 ops w0 rs x w Hn Hl H1 H2 Hr) as [its [Eq [Hwf _]]].
+  exists its. split; [apply wf_wire_decode; exact Hwf|].
+  apply items_small. rewrite <- Eq.
+  apply (auto_reply_size r part cfg x0 ops w0 rs x w Hn Hl H3 Hr).
+Qed.
